@@ -5,6 +5,8 @@ import vlib
 import syntax
 import recvlib
 import convlib
+import erecvlib
+import elemprop
 
 
 def gen_cases(rng, tier):
@@ -33,14 +35,43 @@ def gen_cases(rng, tier):
     return cases
 
 
+def gen_elem_cases(rng, tier):
+    """element-level entry points: every receiver of the element corpus on faulty / degenerate elements"""
+    cases = []
+    per = 10 if tier == "quick" else 80
+    for x in erecvlib.ERECVS:
+        for _ in range(per):
+            cases.append(erecvlib.make_case(rng, x, rng.choice([0, 1, 2, 3, 5])))
+        if x["kind"] == "derive_input":
+            for kind in ("union", "enum", "struct"):
+                for _ in range(2):
+                    attrs, src = erecvlib.gen_derive_input_src(rng, x, rng.choice([0, 2]), body_kind=kind)
+                    cases.append(dict(erecvlib.make_case(rng, x, 0), src=src))
+            for src in ("struct S;", "enum S {}", "union S { a: u8 }", "struct S();", "struct S {}", "#[a] #[a()] #[a = 1] #[a(a b)] struct S;",
+                        "enum S { A = 1, B(u8), C { x: u8 } }"):
+                cases.append(dict(erecvlib.make_case(rng, x, 0), src=src))
+        if x["kind"] == "attributes":
+            for src in ("struct S;", "#[a] #[a()] #[a = 1] #[a(a b)] #[a(1, 2)] struct S;"):
+                cases.append(dict(erecvlib.make_case(rng, x, 0), src=src))
+    return cases
+
+
 def run(tier, seed, replay=None, prop="C07", holds="holds07"):
     R = vlib.Run(prop, tier, seed)
     R.proof_coverage(vlib.proof_step(prop))
+    eout = None
     if replay:
         c = json.load(open(replay))["case"]
+        if c.get("op") == "elem":
+            eout = elemprop.elem_part(R, prop, [{k: v for k, v in c.items() if k != "id"}], "holds07e", "holds07e", key_fn=lambda c, r: "elem-panic",
+                                      failed="holds07e (Exec/ElemCase.v)")
+            return R.finish()
         raw = [{k: c[k] for k in ("target", "src", "entry", "pairs") if k in c}]
     else:
         raw = gen_cases(R.rng, tier)
+        if prop == "C07":
+            eout = elemprop.elem_part(R, prop, gen_elem_cases(R.rng, tier), "holds07e", "holds07e",
+                                      key_fn=lambda c, r: "elem-panic" if "panic" in r else "elem", failed="holds07e (Exec/ElemCase.v)")
     out = convlib.run_conv_property(
         R, prop, raw, "run_recv " + holds + " %s",
         lambda c, r: recvlib.c_case_recv(recvlib.BY_NAME[c["target"]], c, r),
@@ -51,14 +82,16 @@ def run(tier, seed, replay=None, prop="C07", holds="holds07"):
     if out is None:
         return R.finish()
     keep = out["keep"]
+    ek = (eout or {}).get("keep", [])
     R.coverage.update({
-        "evaluations": len(keep),
-        "distinct_nontrivial": len({(c["target"], c["src"]) for c in keep if "(" in c["src"]}),
+        "evaluations": len(keep) + len(ek),
+        "distinct_nontrivial": len({(c["target"], c["src"]) for c in keep if "(" in c["src"]}) + len({(c["recv"], c["src"]) for c in ek}),
         "rule": "every FromMeta receiver of the corpus (%d: named / unit / newtype structs and enums over the derive option space, nested to depth 3) x "
                 "mistake-free inputs and inputs with 1-8 injected mistakes, plus degenerate forms (word, empty list, literals, malformed lists, deep "
                 "nesting, 44-digit integers), from_none and nested-literal position; non-trivial = a list form" % len([x for x in recvlib.RECVS if x["trait"] == "FromMeta"]),
         "samples": [keep[i] for i in (0, len(keep) // 3, len(keep) // 2, len(keep) - 1) if i < len(keep)],
-        "distribution": {"outcomes": out["outcomes"], "receivers": len({c["target"] for c in keep}), "sources_rejected_by_syn": out["unparsed"]},
+        "distribution": {"outcomes": out["outcomes"], "receivers": len({c["target"] for c in keep}), "sources_rejected_by_syn": out["unparsed"],
+                         "element_level": {k: v for k, v in (eout or {}).items() if k in ("outcomes", "entries", "unparsed")}},
     })
     R.assumptions = ["user callables do not panic (fixed library)", "stack depth and debug-build arithmetic overflow are outside the model"]
     return R.finish()
